@@ -42,6 +42,18 @@ PROPS = {
         assumptions=[],
         open=[],
     ),
+    "C07": dict(
+        title="fairness of interleaving disjunction",
+        props_module="PvModel.Props.C07",
+        rule="disjunctions (conde/disj, nested, optionally under a conjunction) of 2-4 branches drawn from infinite producers "
+             "(always+tag, loop, open-ended member/append), silent divergers (never), statically true clauses and finite goals; "
+             "observable: the first 12 answers in order; oracle: each branch run alone on the real engine, its first 2 answers must be "
+             "delivered by the disjunction within 400x the steps the branch needed alone; non-trivial = some branch has an answer; "
+             "distinct = distinct case lines",
+        trusted=SEARCH_TRUST,
+        assumptions=["the step budget of the oracle (400x + 5000) is a generous instance of the bound the fairness rank gives for nesting depth <= 5"],
+        open=[],
+    ),
     "C01": dict(
         title="unification (State::unify vs unifyF)",
         props_module="PvModel.Props.C01",
